@@ -28,9 +28,13 @@ STAT_KEYS = ["rmse", "mean", "median", "std", "min", "max", "sse"]
 
 def build_results(case):
     out = []
-    for r in case["results"]:
+    for idx, r in enumerate(case["results"]):
         res = Result()
-        res.add_info(dict(r["info"]))
+        info = dict(r["info"])
+        if info.get("k", 0) % 2 and idx > 0:
+            # runs differ in their bookkeeping: a later result carries an info entry the first one lacks
+            info["extra_note_%d" % idx] = "only in result %d" % idx
+        res.add_info(info)
         res.add_stats({k: float(v) for k, v in r["stats"].items()})
         for arr in r["arrays"]:
             name = arr["name"]
